@@ -15,7 +15,8 @@ def run(ctx):
     ctx.cov["rule"] = ("closed clusters (fixed nodes/queues/jobs; binds complete, evicted pods recreated pending) run for 8 cycles on the real "
                        "scheduler with consolidation / consolidating-reclaim / saturation multiplier varied (profile closed: gangs, elastic jobs, sharers; profile flat: "
                        "single-pod whole-GPU jobs of 1-3 GPUs in 2-3 queues with small quotas, weights and two priorities, sometimes a third queue level; profile chains: "
-                       "2-3 separate queue chains of depth 2-3 whose leaves diverge at the top of the tree, big jobs at the head of a queue); lasso detection on the canonical "
+                       "2-3 separate queue chains of depth 2-3 whose leaves diverge at the top of the tree, big jobs at the head of a queue; profile satc: quota trees in which the "
+                       "saturation comparison one level up decides, multipliers 1.2-3; profile frag: fragmented nodes, elastic jobs above their minimum, consolidation on); lasso detection on the canonical "
                        "cluster state by TLC; non-trivial = at least one eviction happened")
     ctx.assumptions += ["rule level: ReclaimRules.tla is model-checked for 2 departments x 2 leaf queues, 3 GPUs, <= 2 jobs per leaf, "
                         "every fair-share vector the C09 contract allows (liveness on the complete state graph); its full initial "
@@ -27,7 +28,8 @@ def run(ctx):
     st_reclaimrules.run_stage(ctx, PREFIXES, thorough=not ctx.quick)
     st_reclaimsizes.run_stage(ctx, PREFIXES, thorough=not ctx.quick)
     n = 320 if ctx.quick else 5000
-    st_cluster.run_stage(ctx, PREFIXES, [("closed", n), ("flat", 1200 if ctx.quick else 20000), ("chains", 600 if ctx.quick else 10000)], nontrivial_fn=nontrivial)
+    st_cluster.run_stage(ctx, PREFIXES, [("closed", n), ("flat", 1200 if ctx.quick else 20000), ("chains", 600 if ctx.quick else 10000),
+                                         ("satc", 600 if ctx.quick else 10000), ("frag", 400 if ctx.quick else 6000)], nontrivial_fn=nontrivial)
     st_cluster.run_directed(ctx, PREFIXES, "C15")
 
 
